@@ -106,7 +106,23 @@ def gen_system(rng):
     box = [e, e, e] if rng.random() < 0.5 else [rng.uniform(4.5, 7.0) for _ in range(3)]
     opts = {'box': [round(b, 3) for b in box], 'step_fudge': rng.choice([1.0, 0.8, 1.2]),
             'max_force': rng.choice([5e4, 1e3, 1e2]), 'nrewind': rng.choice([5, 3]), 'grid_spacing': rng.choice([0.2, 0.5])}
-    return {'moltypes': mts, 'molecules': mols, 'opts': opts, 'seed': rng.randrange(10 ** 6)}
+    case = {'moltypes': mts, 'molecules': mols, 'opts': opts, 'seed': rng.randrange(10 ** 6)}
+    if rng.random() < 0.35:
+        # ligands attached to individual copies of one molecule type, on different (adjacent) residues, of two kinds
+        host = systems.gen_moltype(rng, 'MH', nres=rng.randint(5, 9), shape='path')
+        l1 = systems.gen_moltype(rng, 'L1', nres=1, resnames=['LA'])
+        l2 = systems.gen_moltype(rng, 'L2', nres=1, resnames=['LB'])
+        ncopy = rng.randint(2, 4)
+        case['moltypes'] = [host, l1, l2]
+        case['molecules'] = [('MH', ncopy), ('L1', ncopy), ('L2', ncopy)]
+        r0 = rng.randint(2, host['nres'] - 1)
+        specs = []
+        for c in range(ncopy):
+            r = min(host['nres'], max(1, r0 + rng.choice([-1, 0, 1])))
+            lig = rng.choice(['L1', 'L2'])
+            specs.append([f"MH#{c}-{host['resnames'][r - 1]}#{r}", f"{lig}#{ncopy * (1 if lig == 'L1' else 2) + c}"])
+        case['ligands'] = specs
+    return case
 
 
 def run_monitored(case, timeout=60):
@@ -150,7 +166,7 @@ def run_monitored(case, timeout=60):
                     if d < 0.1 - 1e-12:
                         bad.append(f"placed {d:.6f} nm from positioned residue row {int(g)}")
                     if g not in excl and d > 0:
-                        sig, eps = self.interaction_matrix[frozenset([self.atypes[gself], self.atypes[g]])]
+                        sig, eps = pair_size(self, gself, g), 1.0
                         dv = (point - rows[g])
                         dv = dv - box * np.round(dv / box)
                         force += lj(sig, eps, d) * dv / d
@@ -179,9 +195,26 @@ def run_monitored(case, timeout=60):
             return real(self, point, mol_idx, node_key, start=start)
         return add_positions
 
+    def type_of(eng, g):
+        """the residue type of an engine row, read from the TOPOLOGY (template key, else residue name)"""
+        topo = rec.get('topo')
+        if topo is None:
+            return eng.atypes[g]
+        if 'rows' not in rec:
+            rec['rows'] = {gi: key for key, gi in eng.nodes_to_gndx.items()}
+        m, n = rec['rows'][g]
+        nd = topo.molecules[m].nodes[n]
+        return nd.get('template', nd['resname'])
+
+    def pair_size(eng, ga, gb):
+        topo = rec.get('topo')
+        if topo is None:
+            return eng.interaction_matrix[frozenset([eng.atypes[ga], eng.atypes[gb]])][0]
+        return (float(topo.volumes[type_of(eng, ga)]) + float(topo.volumes[type_of(eng, gb)])) / 2
+
     def sizes(eng, mol_idx, node):
         g = eng.nodes_to_gndx[(mol_idx, node)]
-        return eng.interaction_matrix[frozenset([eng.atypes[g], eng.atypes[g]])][0]
+        return pair_size(eng, g, g)
 
     def wrap_run_molecule(real):
         def run_molecule(self, meta_molecule):
@@ -193,6 +226,7 @@ def run_monitored(case, timeout=60):
     def wrap_run_system(real):
         def run_system(self, molecules):
             rec['grid'] = np.array(self.box_grid, dtype=float)
+            rec['topo'] = self.topology
             out = real(self, molecules)
             rec['final'] = (self.nonbond_matrix.positions.copy(), float(self.nonbond_matrix.cut_off))
             return out
@@ -204,9 +238,10 @@ def run_monitored(case, timeout=60):
              'polyply.src.build_system:BuildSystem.run_system': wrap_run_system}
     top = systems.top_text(case['moltypes'], case['molecules'])
     with systems.Workdir() as wd:
+        extra = {'ligands': [list(x) for x in case['ligands']]} if case.get('ligands') else {}
         res = systems.run_gen_coords(wd, top, seed=case['seed'], hooks=hooks, box=box,
                                      step_fudge=opts['step_fudge'], max_force=opts['max_force'],
-                                     nrewind=opts['nrewind'], grid_spacing=opts['grid_spacing'], maxiter=200, timeout=timeout)
+                                     nrewind=opts['nrewind'], grid_spacing=opts['grid_spacing'], maxiter=200, timeout=timeout, **extra)
     rec['ok'] = res['ok']
     rec['exc'] = None if res['ok'] else f"{res['exc_type']}: {res['exception']}"
     if res['ok'] and 'final' in rec:
@@ -219,6 +254,8 @@ def run_monitored(case, timeout=60):
                     rec['bad'].append({'failure': f"final structure: two residues {d:.6f} nm apart", 'placement': None})
     rec.pop('final', None)
     rec.pop('grid', None)
+    rec.pop('topo', None)
+    rec.pop('rows', None)
     return rec
 
 
@@ -248,6 +285,8 @@ def run(ctx):
             timeouts += 1
         nplace += len(rec['placements'])
         ctx.feature('runs_ok' if rec['ok'] else 'runs_failed')
+        if case.get('ligands'):
+            ctx.feature('runs_with_ligands_on_individual_copies')
         ctx.feature('placements', len(rec['placements']))
         ctx.feature('placements_with_neighbours', sum(1 for p in rec['placements'] if p.get('near')))
         if not rec['ok']:
